@@ -21,10 +21,11 @@ Inductive case :=
 | KLine (kind : N) (text : str) (r : reading)
 (* the code points for which the real char::is_whitespace is true *)
 | KWs (table : list N)
-(* bounded-exhaustive block: all strings prefix ++ t, t in alphabet^depth;
-   per string the shape the real quoter chose (0 bare, 1 single, 2 double),
-   +4 if one of the four real readings was not exactly [s], +8 if the real
-   output is not the rendering of that shape *)
+(* bounded-exhaustive block: all strings prefix ++ t, t in alphabet^depth (in
+   the order of [all_strs]); per string the shape the real quoter chose
+   (0 bare, 1 single, 2 double), +4 if one of the four real readings was not
+   exactly [s] (compared in the harness; such a string is also sent as a full
+   KQuote case), +8 if the real output is not the rendering of any shape *)
 | KExh (alphabet prefix : str) (depth : nat) (codes : list N)
 (* name, value, the text [quoted(name)=quoted(value)], what [args TEXT] read
    in a directory that contains files a pattern could match *)
@@ -101,15 +102,19 @@ Definition agrees (p : prediction) (r : reading) : bool :=
 
 (* ---- one quoted string ------------------------------------------------- *)
 
-Definition quote_oracle (s q : str) (r_arg r_assign r_decl r_argeq : reading) : list bool :=
+(* The oracle looks only at what the real shell read.  Whether the quoter's
+   text is one of the three notations ([spec_reads]) is part of the model
+   agreement: a different notation that the shell still reads back correctly
+   breaks the correspondence, not the property. *)
+Definition quote_oracle (s : str) (r_arg r_assign r_decl r_argeq : reading) : list bool :=
   [ reading_eqb r_arg (Some [s]);
     reading_eqb r_assign (Some [s]);
     reading_eqb r_decl (Some [s]);
-    reading_eqb r_argeq (Some [s_x_eq ++ s]);
-    spec_reads ws q s ].
+    reading_eqb r_argeq (Some [s_x_eq ++ s]) ].
 
 Definition quote_model_agrees (s q : str) (r_arg r_assign r_decl r_argeq : reading) : bool :=
   str_eqb (quote ws s) q
+  && spec_reads ws q s
   && agrees (predict_args q) r_arg
   && agrees (predict_assign q) r_assign
   && agrees (predict_decl q) r_decl
@@ -139,18 +144,20 @@ Definition shape_of_code (k : N) : option shape :=
 
 (* verdict for one string of a block *)
 Definition exh_one (s : str) (code : N) : verdict :=
-  match shape_of_code code with
-  | None => if code <? 8 then 2 else 6      (* a real reading failed / not a rendering *)
-  | Some sh =>
-      let q := render sh s in
-      if negb (spec_reads ws q s) then 6
-      else if shape_eqb (quote_shape ws s) sh
-              && agrees (predict_args q) (Some [s])
-              && agrees (predict_assign q) (Some [s])
-              && agrees (predict_decl q) (Some [s])
-              && agrees (predict_args (s_x_eq ++ q)) (Some [s_x_eq ++ s])
-           then 0 else 1
-  end.
+  if N.testbit code 2 then 2                 (* a real reading was not exactly [s] *)
+  else
+    match shape_of_code code with
+    | None => 1                              (* not a rendering of the three shapes *)
+    | Some sh =>
+        let q := render sh s in
+        if spec_reads ws q s
+           && shape_eqb (quote_shape ws s) sh
+           && agrees (predict_args q) (Some [s])
+           && agrees (predict_assign q) (Some [s])
+           && agrees (predict_decl q) (Some [s])
+           && agrees (predict_args (s_x_eq ++ q)) (Some [s_x_eq ++ s])
+        then 0 else 1
+    end.
 
 Fixpoint exh_all (ss : list str) (codes : list N) (acc : verdict) : verdict :=
   match ss, codes with
@@ -197,7 +204,7 @@ Definition model_listing (kind : N) (st : snapshot) : option str :=
 Definition run_case (c : case) : verdict :=
   match c with
   | KQuote s q r1 r2 r3 r4 =>
-      match first_false 0 (quote_oracle s q r1 r2 r3 r4) with
+      match first_false 0 (quote_oracle s r1 r2 r3 r4) with
       | Some k => 2 + k
       | None => if quote_model_agrees s q r1 r2 r3 r4 then 0 else 1
       end
